@@ -1,3 +1,3 @@
 From Coq Require Import Extraction ExtrOcamlBasic.
 From CyVerif Require Import Lib.CInt Model.M_BinopSlot.
-Extraction "../ocaml/gen/m_binopslot.ml" ex_keep run run_capi exc_same_type exc_multi_slot sq_concat_applies.
+Extraction "../ocaml/gen/m_binopslot.ml" ex_keep run run_capi exc_same_type exc_multi_slot sq_concat_applies rc_run.
